@@ -265,6 +265,171 @@ fn keysign_event(w: &mut TraceWriter, rng: &mut Rng, reals: &[realkeys::RealKey]
     }
 }
 
+/// A zone's records reach a SortedRecords collection by a random route
+/// (From<Vec> / collect / insert one at a time / extend in chunks, in random
+/// order or - like a zone file - owner by owner with the records of an RRset
+/// in any order) and the collection is signed through a random entry point.
+/// Logged: the collection as it hands its records out, the octets every call
+/// of sign_raw received for the zone's own RRsets, and whether every RRSIG a
+/// real key made the same way verifies over its RRset presented in any order.
+fn signzone_event(w: &mut TraceWriter, rng: &mut Rng, reals: &[realkeys::RealKey], turn: u64) {
+    use dnssec::sinput::{all_verify, run_entry, Coll, ENTRIES};
+    let mut apex = vec![label(rng)];
+    apex[0].truncate(8);
+    apex.push(b"ex".to_vec());
+    let mut owners: Vec<Vec<Vec<u8>>> = vec![apex.clone()];
+    for _ in 0..3 + rng.below(10) {
+        let mut o = apex.clone();
+        for _ in 0..1 + rng.below(2) {
+            let mut l = label(rng);
+            l.truncate(10);
+            o.insert(0, l);
+        }
+        if rng.chance(1, 5) {
+            o[0] = vec![b'*'];
+        }
+        if !owners.iter().any(|x| x.len() == o.len() && x.iter().zip(o.iter()).all(|(a, b)| a.eq_ignore_ascii_case(b))) {
+            owners.push(o);
+        }
+    }
+    let mut rrs: Vec<Value> = vec![];
+    for (oi, o) in owners.iter().enumerate() {
+        let mut types: Vec<u16> = if oi == 0 { vec![6, 2] } else { vec![] };
+        for _ in 0..1 + rng.below(3) {
+            let t = *rng.pick(&[1u16, 28, 15, 16, 33, 257, 65280, 65281, 12]);
+            if !types.contains(&t) {
+                types.push(t);
+            }
+        }
+        for t in types {
+            let rttl = rng.below(100_000) as u32;
+            let k = if t == 6 { 1 } else { 1 + rng.below(4) as usize };
+            for i in 0..k {
+                let mut on = jlabels(o);
+                if rng.chance(1, 3) {
+                    recase(rng, &mut on);
+                }
+                let rr = json!({"owner": on, "type": t, "class": 1, "ttl": rttl, "rd": rdata(rng, t, i)});
+                // now and then the same record once more, its owner spelled differently
+                if rng.chance(1, 12) {
+                    let mut d = rr.clone();
+                    recase(rng, &mut d["owner"]);
+                    rrs.push(d);
+                }
+                rrs.push(rr);
+            }
+        }
+    }
+    let recs: Vec<SRecord> = match records_of(&Value::Array(rrs.clone())) {
+        Ok(r) if r.len() == rrs.len() => r,
+        _ => return,
+    };
+    // ---- arrival order and route
+    let n = recs.len();
+    let mut order: Vec<usize> = (0..n).collect();
+    let file_like = rng.chance(1, 2);
+    if file_like {
+        // owner by owner, type by type as a tidy zone file lists them; the
+        // records of an RRset in any order
+        order.sort_by(|&a, &b| {
+            use domain::base::cmp::CanonicalOrd;
+            recs[a].owner().canonical_cmp(recs[b].owner()).then(recs[a].rtype().cmp(&recs[b].rtype()))
+        });
+        let mut i = 0;
+        while i < n {
+            let mut j = i;
+            while j < n && recs[order[j]].rtype() == recs[order[i]].rtype() && recs[order[j]].owner() == recs[order[i]].owner() {
+                j += 1;
+            }
+            for k in (i + 1..j).rev() {
+                order.swap(k, i + rng.below((k - i) as u64 + 1) as usize);
+            }
+            i = j;
+        }
+    } else {
+        for i in (1..n).rev() {
+            order.swap(i, rng.below(i as u64 + 1) as usize);
+        }
+    }
+    let mut ops: Vec<(&str, Vec<usize>)> = vec![];
+    let mut at = 0;
+    let style = rng.below(3); // 0: one at a time, 1: mixed, 2: one batch first
+    while at < n {
+        let first = ops.is_empty();
+        let (op, len) = match style {
+            0 => ("insert", 1),
+            2 if first => (*rng.pick(&["from", "collect", "extend"]), 1 + rng.below(n as u64) as usize),
+            _ if rng.chance(1, 3) => (if first { *rng.pick(&["from", "collect", "extend"]) } else { "extend" },
+                                      1 + rng.below(12) as usize),
+            _ => ("insert", 1),
+        };
+        let end = (at + len).min(n);
+        ops.push((op, order[at..end].to_vec()));
+        at = end;
+    }
+    let build = || -> Coll {
+        let mut coll: Coll = SortedRecords::default();
+        for (op, idx) in &ops {
+            let batch: Vec<SRecord> = idx.iter().map(|i| recs[*i].clone()).collect();
+            match *op {
+                "insert" => {
+                    for r in batch {
+                        let _ = coll.insert(r);
+                    }
+                }
+                "from" => coll = SortedRecords::from(batch),
+                "collect" => coll = batch.into_iter().collect(),
+                _ => coll.extend(batch),
+            }
+        }
+        coll
+    };
+    let e = loop {
+        let e = *rng.pick(&ENTRIES);
+        if e != "slice_sign_rrset" {
+            break e;
+        }
+    };
+    let key = json!({"flags": *rng.pick(&[256u16, 257]), "proto": 3, "alg": 15, "pub": jbytes(&rng.bytes(32))});
+    let flags = key["flags"].as_u64().unwrap() as u16;
+    let inc = ts4(rng);
+    let exp = u32::from_be_bytes(inc).wrapping_add(rng.below(0x7FFF_0000) as u32).to_be_bytes();
+    let (inc_t, exp_t) = (Timestamp::from(u32::from_be_bytes(inc)), Timestamp::from(u32::from_be_bytes(exp)));
+    let apex_n = name_of(&jlabels(&apex));
+    let r = catch_unwind(AssertUnwindSafe(|| -> Result<Value, String> {
+        let coll = build();
+        // the collection as it hands its records out, each as the JSON it was made from
+        let mut stored = vec![];
+        for r in coll.iter() {
+            let i = (0..n).find(|i| recs[*i].owner().as_slice() == r.owner().as_slice() && recs[*i].ttl() == r.ttl()
+                                    && recs[*i].rtype() == r.rtype() && recs[*i].data() == r.data())
+                .ok_or("a stored record is none of the records added")?;
+            stored.push(rrs[i].clone());
+        }
+        let rk = SigningKey::new(apex_n.clone(), flags, RecKey::of_json(&key));
+        let all = run_entry(e, coll, &[], &apex_n, &rk, inc_t, exp_t)?;
+        let nsigs = all.iter().filter(|r| r.rtype() == domain::base::iana::Rtype::RRSIG).count();
+        let handed: Vec<Value> = rk.raw_secret_key().take().into_iter()
+            .filter(|b| b.len() < 2 || !matches!(u16::from_be_bytes([b[0], b[1]]), 47 | 50 | 51))
+            .map(|b| jbytes(&b)).collect();
+        let real = reals.iter().find(|k| k.alg == 15).ok_or("no Ed25519 key")?;
+        let sk = SigningKey::new(apex_n.clone(), flags, real.pair(if turn % 2 == 0 { "direct" } else { "bind" }, flags)?);
+        let verified = run_entry(e, build(), &[], &apex_n, &sk, inc_t, exp_t)
+            .and_then(|all| all_verify(&all, &real.dnskey(flags)));
+        Ok(json!({"ev": "signzone", "entry": e, "file_like": file_like,
+                  "route": ops.iter().map(|(o, i)| json!([o, i.len()])).collect::<Vec<_>>(),
+                  "key": key, "keyOwner": jlabels(&apex), "inc": jbytes(&inc), "exp": jbytes(&exp),
+                  "stored": stored,
+                  "res": {"handed": handed, "nsigs": nsigs, "verify": verified.as_ref().map(|n| *n == nsigs).unwrap_or(false),
+                          "why": verified.err().unwrap_or_default()}}))
+    }));
+    match r {
+        Ok(Ok(ev)) => w.event(ev),
+        Ok(Err(err)) => w.event(json!({"ev": "signzone_error", "entry": e, "err": err})),
+        Err(_) => w.event(json!({"ev": "panic", "in": "signzone", "entry": e, "rrs": rrs})),
+    }
+}
+
 fn record_rrsig(out: &str, seed: u64, n: u64) {
     let mut w = TraceWriter::create(out);
     let mut rng = Rng::new(seed);
@@ -402,6 +567,9 @@ fn record_rrsig(out: &str, seed: u64, n: u64) {
         done += 1;
         if done % 4 == 0 {
             keysign_event(&mut w, &mut rng, &reals, &others, &rrs, &recs, &key_owner, inc, exp, done / 4);
+        }
+        if done % 16 == 0 {
+            signzone_event(&mut w, &mut rng, &reals, done / 16);
         }
         // ---- resolver side
         for _ in 0..2 {
